@@ -11,20 +11,20 @@ props = [json.loads(l) for l in open(os.path.join(ROOT, "properties.jsonl"))]
 
 CLAIMS = {
     "C02": dict(
-        text="Verus proves, for every arena and all loop iterations, that the real regex::RegexNode::nullable / do_firstpos / do_lastpos / firstpos / lastpos compute the Dragon-book set functions (whole-view postconditions on the &mut accumulators). The remaining links of the chain (followpos, expression->regex, subset construction, check.rs passes) are decided only by a labelled bounded stand-in: complete language-equivalence (labels included) between an independent reference semantics and the real automaton, before and after minimisation, for every expression tree up to 4 (thorough: 5) nodes plus seeded random larger ones.",
-        note="Proved: 5 functions of regex.rs + 2 Index impls. Assumed: shims for RoaringBitmap (prelude/roaring.rs), derived Clone, rewrite rules R1/R2. Not proved: Glushkov theorem, do_followpos, do_from_expr, dfa_from_regex, from_grammar glue (bounded only).",
-        design="§7 C02", tech="Verus contracts (spec functions over the arena, loop invariants) on mechanically extracted regex.rs functions; bounded pipeline equivalence as labelled stand-in", cat="proof"),
+        text="Verus proves, for every arena and all loop iterations, on the real code: (1) regex::do_from_expr / Regex::from_expr build a regex that is the expression leaf for leaf (translation relation `corr`: same shape, the p-th leaf is position p, input_from_position[p] carries that leaf's own text, description, `||` level and span; exactly one position per leaf; root = Cat[r, EndMarker]) -- the clause 'no description or fallback level is moved to a different literal'; (2) RegexNode::nullable / firstpos / lastpos / followpos and their do_* workers compute the Dragon-book set functions (whole-view postconditions on the &mut accumulators; followpos via a lemma that the code's omission of the descent below a Star is harmless for every regex from_expr returns); (3) check::do_propagate_fallback_levels gives every leaf the index of the `||` branch it sits in, distribute_descriptions leaves no DistributiveDescription node, flatten_expr / collapse_subwords leave no (nested) Subword node. The remaining links of the chain (first/last/follow sets -> accepted language, subset construction, minimisation, from_grammar glue) are decided only by a labelled bounded stand-in: complete language-equivalence (labels included) between an independent reference semantics and the real automaton, before and after minimisation, for every expression tree up to 4 (thorough: 5) nodes plus seeded random larger ones.",
+        note="Proved: 20 functions of regex.rs / check.rs / parse.rs + Index impls. Assumed: shims for RoaringBitmap, the followpos BTreeMap, UstrMap, RegexInternPool, OnceCell (prelude/), derived Clone, rewrite rules R1/R2/R3/R3e/R9/R12; positions fit u32 (precondition). Not proved: the Glushkov theorem (sets -> language), dfa_from_regex, do_minimize, the from_grammar glue and the preconditions it must establish (bounded only).",
+        design="§7 C02", tech="Verus contracts (spec functions and translation relations over the arenas, loop invariants, ghost snapshots, induction lemmas) on mechanically extracted regex.rs / check.rs / parse.rs functions; bounded pipeline equivalence as labelled stand-in", cat="proof"),
     "C03": dict(
-        text="Bounded stand-in on the real DFA::minimize: for every automaton produced from the grammar corpus (all trees <= 4/5 nodes + random), language preserved (product search), every state reachable and live, state count equals that of the canonical minimal automaton; within-word automata likewise.",
-        note="No function of do_minimize is under a Verus contract yet; nothing here is counted as proved.",
-        design="§7 C03", tech="bounded exhaustive comparison against an independent Moore minimisation (stand-in; Verus contracts on the helpers planned)", cat="exploration"),
+        text="Verus proves the minimiser's helper dfa::find_bounds (binary search + two scans, termination included): on the transition image sorted by target it returns exactly the slice of transitions whose target lies in the group's id range, or None exactly when there is none. The property itself is decided by a labelled bounded stand-in on the real DFA::minimize: for every automaton produced from the grammar corpus (all trees <= 4/5 nodes + random), language preserved (product search), every state reachable and live, state count equals that of the canonical minimal automaton; within-word automata likewise.",
+        note="Only find_bounds is under contract (assumed: slice::binary_search_by per its std documentation, prelude/bsearch.rs; closure hoisted by rule R13). do_minimize (Hopcroft refinement over hash sets of interned bitmaps), renumber_states and the two filters are not: nothing about language preservation or minimality is counted as proved.",
+        design="§7 C03", tech="Verus contract on the extracted find_bounds; bounded exhaustive comparison against an independent Moore minimisation (stand-in)", cat="exploration"),
     "C04": dict(
         text="Kani proves the per-shell index base constants (bash 0, fish 1, zsh 1, pwsh 0) on the extracted items. Everything else is a labelled bounded stand-in on the real code over the grammar corpus x 4 shells: (1) the LookupTables every emitter prints (literal list longest-first with ids from the shell's base, match tables, per-level completion tables, command ids, within-word automaton ids, feature flags) are recomputed independently from the automaton and compared; (2) isomorphic_to / shape_hash: every pair of distinct within-word table sets met in the corpus (plus level-permuted seeds) must not be reported isomorphic, isomorphic ones must hash alike; (3) the TEXT emitted by all four real emitters is read back with that shell's own table syntax and index base (bash/zsh associative-array initialisers, fish parallel `set` lists, PowerShell hashtables; string constants through the C07 decoders) and must equal those tables, with one command function per id holding the command verbatim, the start state, the description attached to each literal id, and the registration for the command name.",
         note="Not a proof beyond the constants. The emitted text is decoded by readers written for this check, not by the shells (only bash is installed); the run-time code of the scripts (matching loops) is not interpreted here.",
         design="§7 C04", tech="Kani on extracted constants; bounded recomputation of the tables from the automaton, pairwise isomorphism check, decoding of the emitted bash/zsh/fish/pwsh table text (stand-in)", cat="exploration"),
     "C06": dict(
-        text="Verus proves panic-freedom (unreachable!/overflow/underflow obligations) of dfa::diagnostic_display_input for every Inp, of the HumanSpan accessors under span well-formedness, and of RegexInput::is_star_subword under its precondition. Process-level behaviour is checked by labelled bounded stand-ins: the built binary on planted-mistake grammars and structure-aware mutations (exit 0+script or 1+diagnostic, destination untouched), and no panic of the library pipeline on the grammar corpus.",
-        note="Termination/stack depth unverified; nom parser not under contract; CLI runs are a bounded sample, not a proof.",
+        text="Verus proves panic-freedom (unreachable!/overflow/underflow/index obligations) of: dfa::diagnostic_display_input for every Inp; the HumanSpan accessors under span well-formedness; RegexInput::is_star_subword under its precondition; the check.rs tree passes (distribute_descriptions, specialize_nonterminals, resolve_nonterminals, collapse_subwords, propagate_fallback_levels, get_nonterm_refs), parse::flatten_expr, regex::do_from_expr / Regex::from_expr, do_followpos and dfa::find_bounds under arena well-formedness and the chain 'no DistributiveDescription after distribution' that their unreachable!() arms rely on (each pass re-establishes it for the next). Process-level behaviour is checked by labelled bounded stand-ins: the built binary on planted-mistake grammars and structure-aware mutations (exit 0+script or 1+diagnostic, destination untouched), and no panic of the library pipeline on the grammar corpus.",
+        note="Termination/stack depth unverified (except find_bounds); nom parser and ValidGrammar::from_grammar glue not under contract, so the preconditions of the passes are assumed at their call sites there; CLI runs are a bounded sample, not a proof.",
         design="§7 C06", tech="Verus body-safety obligations on extracted functions; bounded CLI/pipeline runs as stand-in", cat="proof"),
     "C07": dict(
         text="Unbounded proof (Verus) that each of the four real make_string_constant functions returns a constant which an independent decoder of that shell's double-quote rules reads back as exactly the input, for every string; plus a labelled bounded replay twin on the real compiled functions.",
@@ -39,17 +39,17 @@ CLAIMS = {
         note="Not a proof; bash execution not covered.",
         design="§7 C09", tech="Kani full-domain harnesses on the extracted symbol type Inp (equality is structural; same-text literals are one symbol: fails = known finding D10); bounded exact determinism / language comparison on the real automaton (stand-in)", cat="proof"),
     "C11": dict(
-        text="Verus proves on the real check.rs::specialize_nonterminals (after rewrite R3 of its three .map().collect() closures into loops): at a nonterminal reference the lookup order is target-shell definition, then built-in, then plain command fallback, with zsh_compadd set only for zsh and level/span kept; every node kind leaves the arena a well-formed extension of the old one and cannot reach the unreachable!() arm given the no-DistributiveDescription precondition. make_builtin_specializations: the table's domain is exactly PATH and DIRECTORY and the directory command differs from the path command for every shell. The property-level statement is decided by exhaustive enumeration of the property's own finite quantifier (3 names x 32 definition subsets x 3 reference positions x 4 shells = 1152 grammars) on the real pipeline.",
-        note="Proved per node, not per tree (the tree-level 'every reference replaced' is the exhaustive stand-in). Assumed: UstrMap/Ustr shims, derived Clone of Expr, rules R3/R10/R7. get_specializations and the from_grammar glue (incl. 'plain definition overrides the built-in') are bounded only; emitted script bodies not covered; termination unverified.",
-        design="§7 C11", tech="Verus contracts on the extracted specialize_nonterminals / make_builtin_specializations; exhaustive enumeration of the property's finite quantifier on the real pipeline", cat="proof"),
+        text="Verus proves on the real check.rs: specialize_nonterminals (rule R3): at a nonterminal reference the lookup order is target-shell definition, then built-in, then plain command fallback, with zsh_compadd set only for zsh and level/span kept; resolve_nonterminals, for the whole tree: a reference to a defined name is replaced by that definition's tree, and the set of names the result still refers to is exactly the undefined names of the input plus the names referred to by the definitions used (so nothing defined survives once its definitions are closed); make_builtin_specializations: the table's domain is exactly PATH and DIRECTORY and the directory command differs from the path command for every shell; every pass leaves the arena a well-formed extension of the old one. The property-level statement is decided by exhaustive enumeration of the property's own finite quantifier (3 names x 32 definition subsets x 3 reference positions x 4 shells = 1152 grammars) on the real pipeline.",
+        note="Assumed: UstrMap/Ustr shims, derived Clone of Expr, rules R3/R10/R7. get_specializations, the resolution order and the from_grammar glue (incl. 'plain definition overrides the built-in') are bounded only; emitted script bodies not covered; termination unverified.",
+        design="§7 C11", tech="Verus contracts on the extracted specialize_nonterminals / resolve_nonterminals / make_builtin_specializations; exhaustive enumeration of the property's finite quantifier on the real pipeline", cat="proof"),
     "C13": dict(
         text="Verus proves that HumanSpan::from_range / from_machine build well-formed spans (start = position of `before`; end on the same line; multi-line constructs end inside their first line) and that the *_machine accessors cannot underflow. Bounded stand-in: every span stored by the real parser for the corpus re-laid-out over several lines lies inside its source line.",
         note="nom_locate is a shim; the nom parser functions are not under contract (bounded only); diagnostic positions after escapes (D11) not yet checked.",
         design="§7 C13", tech="Verus contracts on the span constructors/accessors; bounded span stand-in on the real parser", cat="proof"),
     "C15": dict(
-        text="Verus proves the bookkeeping clause of specialize_nonterminals at a nonterminal reference: the name leaves the unused-definitions map and its target-shell definition is marked used, nothing else changes. Bounded stand-in: undefined / unused-definition / unused-specialisation sets returned by the real ValidGrammar::from_grammar equal the sets the property prescribes, for all 2-name configurations (7 definition kinds x 3 reference positions each) and seeded random 3-name ones incl. `_`, PATH, DIRECTORY, x 4 shells.",
-        note="Only one bookkeeping function is under contract (per node); resolve_nonterminals, get_nonterm_refs and the glue are bounded only; warning printing in main.rs not covered.",
-        design="§7 C15", tech="Verus contract (used-marking clause) on the extracted specialize_nonterminals; bounded set comparison on the real pipeline", cat="proof"),
+        text="Verus proves the bookkeeping the warnings are computed from: specialize_nonterminals at a nonterminal reference (the name leaves the unused-definitions map and its target-shell definition is marked used, nothing else changes); resolve_nonterminals for the whole tree (exactly the defined names the tree refers to are struck off the unused list, values untouched); get_nonterm_refs (the reported undefined names are exactly the names the final tree still refers to). Bounded stand-in: undefined / unused-definition / unused-specialisation sets returned by the real ValidGrammar::from_grammar equal the sets the property prescribes, for all 2-name configurations (7 definition kinds x 3 reference positions each) and seeded random 3-name ones incl. `_`, PATH, DIRECTORY, x 4 shells.",
+        note="The from_grammar glue (which trees the passes are applied to, `<_>` and built-in exceptions) is bounded only; warning printing in main.rs covered by the CLI stand-in only.",
+        design="§7 C15", tech="Verus contracts on the extracted specialize_nonterminals / resolve_nonterminals / get_nonterm_refs; bounded set comparison on the real pipeline", cat="proof"),
     "C16": dict(
         text="Unbounded proof (Verus) that regex::make_dot_string_constant produces a DOT double-quoted ID that decodes to the input for every string (it now carries every label of both dumps). Labelled bounded stand-in: the text written by the real DFA::to_dot / Regex::to_dot for the corpus plus grammars with quotes, backslashes and braces in literals, descriptions and commands is parsed with a DOT parser (Graphviz scanner rules for quoted strings) and compared with the automaton: one node per state numbered with the shell's base, start and accepting shapes, one labelled edge per transition, entry/exit edges and one cluster per within-word automaton, every edge joining declared nodes; in the regex dump every expected item appears as a labelled node with exactly its text.",
         note="The inline formatting of to_dot is not under a Verus contract; no Graphviz is installed (the DOT parser of this check is the judge).",
